@@ -149,12 +149,21 @@ fn c09_streaming_fractional_rates_match_the_static_stepping() {
 }
 
 // @h prop=C09,C04 tier=quick kind=main timeout=900
-// @bounds the reported position with the ring's read index ANYWHERE in the 8-slot ring (symbolic rotation, so the buffered frames may straddle the wrap-around), 1..4 frames buffered
+// @bounds the reported position with the ring's read index on the LAST slot of the 8-slot ring, so that 2..4 buffered frames straddle the wrap-around; 1..4 frames buffered (symbolic), symbolic indices
 // @funcs StreamingSound::{on_start_processing,update_current_frame,position}
 // @catches the frame being heard (slot 1) looked up in the first slice of the ring only: the reported position goes stale whenever the buffered frames wrap around the end of the ring
 #[kani::proof]
 #[kani::unwind(10)]
-fn c09_streaming_reported_position_follows_the_heard_frame_across_ring_wrap() {
+fn c09_streaming_reported_position_follows_the_heard_frame_across_ring_wrap() { kv_reported_position_body(7); }
+
+// @h prop=C09,C04 tier=quick kind=main timeout=900
+// @bounds as above with the buffered frames at the start of the ring (no wrap)
+// @funcs StreamingSound::{on_start_processing,update_current_frame,position}
+#[kani::proof]
+#[kani::unwind(10)]
+fn c09_streaming_reported_position_follows_the_heard_frame_no_wrap() { kv_reported_position_body(0); }
+
+fn kv_reported_position_body(rot: usize) {
 	let (mut prod, cons) = RingBuffer::new(8);
 	let (w, readers, sr) = command_writers_and_readers();
 	std::mem::forget(w); std::mem::forget(sr);
@@ -166,9 +175,8 @@ fn c09_streaming_reported_position_follows_the_heard_frame_across_ring_wrap() {
 		panning: Parameter::new(Value::Fixed(Panning::CENTER), Panning::CENTER),
 		shared: Arc::new(Shared::new()),
 	};
-	// rotate the ring: push and pop `rot` frames first
-	let rot: usize = kani::any();
-	kani::assume(rot < 8);
+	// rotate the ring: push and pop `rot` frames first (concrete per harness: with a symbolic rotation the formula of the
+	// playback run - which is not sliced - has 41 M variables and no counterexample can be extracted)
 	let mut k = 0;
 	while k < rot { prod.push(TimestampedFrame { frame: Frame::ZERO, index: 0 }).ok().unwrap(); s.frame_consumer.pop().ok().unwrap(); k += 1; }
 	let n: usize = kani::any();
@@ -180,7 +188,7 @@ fn c09_streaming_reported_position_follows_the_heard_frame_across_ring_wrap() {
 	let want = if n >= 2 { idx[1] as usize } else { 77 };
 	assert!(s.current_frame == want, "the reported position names the frame being heard (slot 1 of the buffered frames), wherever they sit in the ring");
 	assert!(s.shared.position() == want as f64);
-	kani::cover!(rot == 7 && n == 3, "w:frames-straddle-the-wrap");
+	kani::cover!(n == 3, "w:three-frames-buffered");
 	std::mem::forget(s); std::mem::forget(prod);
 }
 
